@@ -1,0 +1,15 @@
+//go:build verif
+
+package rsync
+
+import "hash"
+
+// VerifC19NewEngineWithStrongHash returns an engine whose strong hash is h
+// instead of SHA-1 (used by the verification harness to exercise strong hash
+// collisions and mismatches).
+func VerifC19NewEngineWithStrongHash(h hash.Hash) *Engine {
+	e := NewEngine()
+	e.strongHasher = h
+	e.strongHashBuffer = make([]byte, h.Size())
+	return e
+}
